@@ -195,6 +195,18 @@ CHECKS["C06"] = {
     ],
 }
 
+CHECKS["C04"] = {
+    "harness": "c04",
+    "level": "exploration",
+    "floor": {"quick": 300, "thorough": 1000},
+    "timeout": {"quick": 1500, "thorough": 7200},
+    "assumptions": [
+        "object address is block identity (blocks are moved, never reallocated, by SetBlockOrder/DeleteBlock)",
+        "bounds are recomputed before the snapshot, so 'apart from recomputed bounding spheres' needs no masking",
+        "empty entries of reference arrays are ignored on both sides (every write drops them); payload snapshots come from clones",
+    ],
+}
+
 for _pid, _floor in (("C18", 1000), ("C19", 1000), ("C20", 1000)):
     CHECKS[_pid] = {
         "harness": _pid.lower(),
